@@ -438,7 +438,10 @@ pub fn odd_command_cases() -> Vec<(&'static str, Opts, Vec<Vec<&'static str>>)> 
     let a = Opts::new(P::Seq(vec![P::Alt(vec![P::Map(work.bx(), "work".into()), P::Map(idle.bx(), "idle".into())])]));
     let jobs = P::arg(Names::long("jobs"), Ty::U32);
     let b = Opts::new(P::Seq(vec![P::Alt(vec![P::Map(jobs.bx(), "j".into()), P::Map(sync("sync").fallback(Val::s("none")).bx(), "c".into())])]));
+    // a flag-looking command name (pacman style `-S`)
+    let c = Opts::new(P::Seq(vec![P::Switch(Names::both('q', "quiet")), P::Alt(vec![sync("-S"), sync("--sync-all")])]));
     vec![
+        ("flag-looking-command-name", c, vec![vec!["-S", "--help"], vec!["-S", "--dry", "--help"], vec!["-S", "--bogus", "-h"], vec!["--sync-all", "--help"], vec!["-q", "-S", "-h"]]),
         ("command-in-optional-member-of-an-alternative-group", a, vec![vec!["sync", "--help"], vec!["sync", "-h"], vec!["-v", "sync", "--help"], vec!["sync", "--dry", "--help"], vec!["sync", "-j", "x", "--help"], vec!["sync", "--bogus", "--help"]]),
         ("command-under-fallback-beside-a-valued-alternative", b, vec![vec!["sync", "--help"], vec!["sync", "--help", "--jobs", "many"], vec!["sync", "--jobs", "many", "--help"], vec!["sync", "--help", "--jobs"], vec!["sync", "--dry", "-h"]]),
     ]
@@ -461,7 +464,7 @@ pub fn run_odd_command(prop: &str, which: usize, unit: &Value, only: Option<&[To
         ctx.s.evaluations += 1;
         ctx.s.transitions += 1;
         let r = run(&p, &argv);
-        let ok = matches!(&r, Outcome::Stdout { text, .. } if (text.starts_with("Usage: sync") || text.contains("\nUsage: sync")) && text.contains("--dry") && !text.contains("--quiet"));
+        let ok = matches!(&r, Outcome::Stdout { text, .. } if ["Usage: sync", "Usage: -S", "Usage: --sync-all"].iter().any(|u| text.starts_with(u) || text.contains(&format!("\n{}", u))) && text.contains("--dry") && !text.contains("--quiet"));
         if ok {
             ctx.s.nontrivial += 1;
             ctx.count("help-after-an-oddly-placed-command");
